@@ -291,6 +291,29 @@ def sub_ids(integral):
     return sid if isinstance(sid, tuple) else (sid,)
 
 
+_min_fd_cache = {}
+
+
+def group_integrals(form, group_index, itype, subdomain_id, complex_mode=False):
+    """the integrals UFL puts into integral-data group `group_index` of `form`, processed as little as UFL
+    allows (derivatives expanded, algebra lowered, restrictions propagated; no pull-backs, no scaling, no
+    geometry lowering).  The kernels FFCx generates are one per such group: with overlapping tuple ids and
+    different metadata a subdomain id is served by several groups."""
+    from ufl.algorithms.compute_form_data import compute_form_data
+    key = (id(form), complex_mode)
+    if key not in _min_fd_cache:
+        # FFCx/DOLFINx convention: integrals over the whole mesh are NOT added to the integrals of a subdomain id (the
+        # assembler runs the 'otherwise' kernel everywhere and the id kernels on their subdomains)
+        _min_fd_cache[key] = (form, compute_form_data(form, do_append_everywhere_integrals=False, complex_mode=complex_mode))
+    fd = _min_fd_cache[key][1]
+    if group_index >= len(fd.integral_data):
+        return None
+    g = fd.integral_data[group_index]
+    if g.integral_type != itype or tuple(g.subdomain_id) != tuple(subdomain_id):
+        return None
+    return list(g.integrals)
+
+
 def integrals_for(form, itype, sid):
     """original integrals that a kernel listed under (itype, sid) must add up."""
     out = []
@@ -401,7 +424,7 @@ def facet_scale(cellobj, X, facet):
 
 
 def reference_tensor(form, itype, sid, cells, wvals, cvals, entity, scalar=float, forced_points=None, diagonal=False,
-                     match_physical=False):
+                     match_physical=False, integrals=None):
     """cells: [Cell] (two for interior facets); wvals: {coefficient: [dofs per side]};
     cvals: {constant: ndarray}; entity: local entity index per side.  Returns A as nested
     numpy array of shape (dims of arguments, doubled for interior facets)."""
@@ -411,7 +434,7 @@ def reference_tensor(form, itype, sid, cells, wvals, cvals, entity, scalar=float
     dims = [int(a.ufl_function_space().ufl_element().dim) for a in args]
     A = np.zeros([d * nside for d in dims], dtype=complex if scalar is complex else float)
     cn = cells[0].cellname
-    for itg in integrals_for(form, itype, sid):
+    for itg in (integrals if integrals is not None else integrals_for(form, itype, sid)):
         expr = apply_algebra_lowering(itg.integrand())
         expr, ph = split_sides(expr)
         facet0 = entity[0] if itype != "cell" else None
